@@ -117,6 +117,10 @@ class CallMixin:
                 return [(st, new)]
             if isinstance(v, (dict, list, set)):
                 return [(st, _copy.copy(v))]
+            if isinstance(v, SRef):          # copy.copy(obj) -> type(obj).__copy__(obj) when the class defines it
+                hooks = {inspect.getattr_static(c, "__copy__", None) for c in self.classes_of(st, v)}
+                if len(hooks) == 1 and None not in hooks:
+                    return self.call_function(st, hooks.pop(), [v], {}, node)
         key = loader.func_key(fn)
         con = self.contracts.get(key)
         if con is not None and not (self.frames and self.frames[0].key == key and len(self.frames) == 1
